@@ -6,8 +6,10 @@ import (
 	"os"
 	"path/filepath"
 	"sort"
+	"runtime"
 	"strings"
 	"sync"
+	"sync/atomic"
 	"testing"
 
 	"github.com/relex/gotils/logger"
@@ -38,6 +40,9 @@ type Case struct {
 	Conns    int    `json:"conns"`
 	Recs     []Rec  `json:"recs"`
 	Dirs     bool   `json:"dirs"` // also create the queue directories (layer 2)
+	Pooled   bool   `json:"pooled,omitempty"` // records are built like the parser does: fields are substrings of a pooled backing buffer that is
+	// recycled as soon as the pipeline has released the record (the pooling threshold, a defs variable, is lowered so that
+	// short records are pooled too); every record is flushed to its pipeline and released before the next one is built
 }
 
 // reference expansion of the tag template ($kN, ${kN}, ${kN[a:b]}) written for the harness
@@ -125,6 +130,7 @@ func run(c Case) vh.Result {
 	mf := promreg.NewMetricFactory("c06_", nil, nil)
 
 	var mu sync.Mutex
+	var processed atomic.Int64
 	var pipes []*pipeRec
 	var wg sync.WaitGroup
 	starter := func(_ logger.Logger, _ promreg.MetricCreator, input <-chan []*base.LogRecord, bufferID string, outputTag string, onStopped func()) {
@@ -142,6 +148,10 @@ func run(c Case) vh.Result {
 						t[i] = []byte(r.Fields[i])
 					}
 					p.tuples = append(p.tuples, canon(t))
+					if c.Pooled {
+						alloc.Release(r) // what the real pipeline does when it is done with a record
+					}
+					processed.Add(1)
 				}
 			}
 			onStopped()
@@ -153,14 +163,41 @@ func run(c Case) vh.Result {
 		sinks[i] = orch.NewSink(fmt.Sprintf("client%d", i), base.ClientNumber(i+1))
 	}
 	distinct := map[string][][]byte{}
-	for _, r := range c.Recs {
-		rec, _ := alloc.NewRecord(nil)
-		for i, v := range r.Tuple {
-			rec.Fields[i] = string(v) // fresh copy per record, like values pointing into a per-record buffer
-		}
-		rec.Fields[c.NKeys] = "msg"
+	oldPool, oldFlush := defs.InputLogMinRecordBytesToPool, defs.IntermediateFlushInterval
+	defer func() { defs.InputLogMinRecordBytesToPool, defs.IntermediateFlushInterval = oldPool, oldFlush }()
+	if c.Pooled {
+		defs.InputLogMinRecordBytesToPool = 0
+		defs.IntermediateFlushInterval = 0
+	}
+	for n, r := range c.Recs {
 		distinct[canon(r.Tuple)] = r.Tuple
+		if !c.Pooled {
+			rec, _ := alloc.NewRecord(nil)
+			for i, v := range r.Tuple {
+				rec.Fields[i] = string(v) // fresh copy per record
+			}
+			rec.Fields[c.NKeys] = "msg"
+			sinks[r.Conn].Accept([]*base.LogRecord{rec})
+			continue
+		}
+		// like the parser: one raw input, copied into a pooled buffer, fields are substrings of that copy
+		var raw []byte
+		for _, v := range r.Tuple {
+			raw = append(raw, v...)
+		}
+		raw = append(raw, "msg-and-some-padding-so-that-short-tuples-share-a-pool-size-class............"...)
+		rec, str := alloc.NewRecord(raw)
+		off := 0
+		for i, v := range r.Tuple {
+			rec.Fields[i] = str[off : off+len(v)]
+			off += len(v)
+		}
+		rec.Fields[c.NKeys] = str[off:]
 		sinks[r.Conn].Accept([]*base.LogRecord{rec})
+		sinks[r.Conn].Tick() // flush interval 0: hand the record to its pipeline now
+		for spin := 0; processed.Load() < int64(n+1) && spin < 2000000; spin++ {
+			runtime.Gosched()
+		}
 	}
 	for _, s := range sinks {
 		s.Close()
@@ -203,6 +240,9 @@ func run(c Case) vh.Result {
 		res.Classes = append(res.Classes, "tuples-with-equal-comma-join")
 	}
 	res.Classes = append(res.Classes, fmt.Sprintf("keys-%d", c.NKeys))
+	if c.Pooled {
+		res.Classes = append(res.Classes, "fields-alias-recycled-pooled-buffers")
+	}
 
 	// oracle
 	total := 0
@@ -375,6 +415,7 @@ func gen(t *rapid.T) Case {
 	c := Case{NKeys: rapid.IntRange(1, 3).Draw(t, "nkeys"), Conns: rapid.IntRange(1, 3).Draw(t, "conns")}
 	c.Template = rapid.SampledFrom(templates[c.NKeys]).Draw(t, "tmpl")
 	c.Dirs = rapid.IntRange(0, 3).Draw(t, "dirs") == 0
+	c.Pooled = rapid.Bool().Draw(t, "pooled")
 	nt := rapid.IntRange(1, 6).Draw(t, "ntuples")
 	var tuples [][][]byte
 	for i := 0; i < nt; i++ {
@@ -412,6 +453,9 @@ func enumPairs(yield func(Case) bool) {
 			if !yield(Case{NKeys: 1, Template: "t.$k0", Conns: 1, Recs: []Rec{{0, x}, {0, y}, {0, x}}}) {
 				return
 			}
+			if !yield(Case{NKeys: 1, Template: "$k0", Conns: 1, Recs: []Rec{{0, x}, {0, y}, {0, x}}, Pooled: true}) {
+				return
+			}
 		}
 	}
 	for i, x := range tuples2 {
@@ -419,7 +463,7 @@ func enumPairs(yield func(Case) bool) {
 			if j <= i {
 				continue
 			}
-			if !yield(Case{NKeys: 2, Template: "$k0.$k1", Conns: 2, Recs: []Rec{{0, x}, {1, y}, {1, x}, {0, y}}}) {
+			if !yield(Case{NKeys: 2, Template: []string{"$k0.$k1", "$k1", "${k0}"}[(i+j)%3], Conns: 2, Recs: []Rec{{0, x}, {1, y}, {1, x}, {0, y}}, Pooled: (i+j)%2 == 1}) {
 				return
 			}
 		}
